@@ -331,9 +331,9 @@ def parseLazyOp (j impl : Json) : Except String LazyOp := do
   | "and" => pure .and | "or" => pure .or | "xor" => pure .xor | "sub" => pure .sub
   | "prune" => pure .prune | "intersection" | "intersection-lf" => pure .intersection | "union" => pure .union
   | "populate" => pure .populate
-  | "coiterActiveShape" => pure .coiterActiveShape
-  | "coiterRangeShape" => do pure (.coiterRangeShape (← fInt j "lo") (← fInt j "hi"))
-  | "coiterShape" => do pure (.coiterRangeShape 0 (← fInt impl "a_shape"))
+  | "coiterActiveShape" | "coiterActiveShapeRef" => pure .coiterActiveShape
+  | "coiterRangeShape" | "coiterRangeShapeRef" => do pure (.coiterRangeShape (← fInt j "lo") (← fInt j "hi"))
+  | "coiterShape" | "coiterShapeRef" => do pure (.coiterRangeShape 0 (← fInt impl "a_shape"))
   | "project" => do
     let iv ← match optField j "interval" with
       | some v => do
